@@ -111,8 +111,8 @@ const (
 	AExpire      = "expire_now"
 	ACancelStart = "cancel_start_ctx"
 	AStatus      = "status"
-	AReadAPI     = "read_api"     // IsLeader, LeaderID, Token, Status
-	ARegister    = "register_cbs" // OnPromote/OnDemote re-registration
+	AReadAPI     = "read_api"        // IsLeader, LeaderID, Token, Status
+	ARegister    = "register_cbs"    // OnPromote/OnDemote re-registration
 	AStopStart   = "stop_then_start" // Stop followed at once by Start, in one goroutine (free-run plans only)
 )
 
